@@ -1,4 +1,5 @@
 //@include_subst ghost_ac_nfa.rs u8=char
+//@include ghost_sem_cw.rs
 
 
 // what is reported after the characters `done` followed by c: the state and its output chain
@@ -25,25 +26,6 @@ proof fn lemma_pos_cw<V>(n: NfaBuilder<char, V>, done: Seq<char>, c: char, end: 
 
 // ---- property-level semantics of the three standard searches over the characters the UTF-8 table decodes ----
 // `done`: characters read so far; rest: undecoded bytes; k: byte offset of rest in the haystack
-spec fn sem_ovl_cw<V>(n: NfaBuilder<char, V>, done: Seq<char>, rest: Seq<u8>, k: nat) -> Seq<Match<V>>
-    decreases rest.len()
-{
-    if rest.len() == 0 || u8len(rest[0]) > rest.len() { Seq::empty() } else {
-        let w = u8len(rest[0]);
-        let d2 = done.push(char_of(u8code(rest)));
-        suf_matches(n, d2, 0, k + w) + sem_ovl_cw(n, d2, rest.skip(w as int), k + w)
-    }
-}
-spec fn first_of<V>(s: Seq<Match<V>>) -> Seq<Match<V>> { if s.len() == 0 { Seq::empty() } else { seq![s[0]] } }
-spec fn sem_nosuf_cw<V>(n: NfaBuilder<char, V>, done: Seq<char>, rest: Seq<u8>, k: nat) -> Seq<Match<V>>
-    decreases rest.len()
-{
-    if rest.len() == 0 || u8len(rest[0]) > rest.len() { Seq::empty() } else {
-        let w = u8len(rest[0]);
-        let d2 = done.push(char_of(u8code(rest)));
-        first_of(suf_matches(n, d2, 0, k + w)) + sem_nosuf_cw(n, d2, rest.skip(w as int), k + w)
-    }
-}
 
 proof fn lemma_chain_head<V>(outs: Seq<Output<V>>, o: nat, end: nat)
     requires o <= outs.len(), forall|j: int| 0 <= j < outs.len() ==> out_parent(#[trigger] outs[j]) <= j,
@@ -128,31 +110,6 @@ proof fn theorem_c01_c05_cw<V>(n: NfaBuilder<char, V>, st: Seq<State>, tb: Seq<u
 }
 
 // ---- C02 char-wise: the occurrence inside the unread text that ends first (longest if several), then resume after it ----
-spec fn sem_first_cw<V>(n: NfaBuilder<char, V>, done: Seq<char>, rest: Seq<u8>, cnt: nat) -> Option<(nat, Seq<char>)>
-    decreases rest.len()
-{
-    if rest.len() == 0 || u8len(rest[0]) > rest.len() { None } else {
-        let w = u8len(rest[0]);
-        let d2 = done.push(char_of(u8code(rest)));
-        if suf_matches(n, d2, 0, 0).len() > 0 { Some((cnt + w, d2)) } else { sem_first_cw(n, d2, rest.skip(w as int), cnt + w) }
-    }
-}
-spec fn sem_find_cw<V>(n: NfaBuilder<char, V>, rest: Seq<u8>, k: nat) -> Seq<Match<V>>
-    decreases rest.len()
-{
-    match sem_first_cw(n, Seq::<char>::empty(), rest, 0) {
-        None => Seq::empty(),
-        Some(p) => if p.0 == 0 || p.0 > rest.len() { Seq::empty() } else {
-            seq![suf_matches(n, p.1, 0, k + p.0)[0]] + sem_find_cw(n, rest.skip(p.0 as int), k + p.0)
-        },
-    }
-}
-proof fn lemma_suf_len<V>(n: NfaBuilder<char, V>, p: Seq<char>, i: nat, e1: nat, e2: nat)
-    ensures suf_matches(n, p, i, e1).len() == suf_matches(n, p, i, e2).len(),
-    decreases p.len() - i,
-{
-    if i < p.len() { lemma_suf_len(n, p, i + 1, e1, e2); }
-}
 // first reporting position over the array == first semantic position; the text after it is still well formed
 proof fn lemma_find_first_cw<V>(n: NfaBuilder<char, V>, st: Seq<State>, tb: Seq<u32>, asz: u32, idmap: Seq<u32>, done: Seq<char>, rest: Seq<u8>, cnt: nat)
     requires ac_ctx_cw(n, st, tb, asz, idmap), utf8_ok(rest),
